@@ -344,6 +344,16 @@ func workCurve(rc *recorder, rng *rand.Rand, scale int) {
 		rc.out("EdwardsPoint.TripleScalarMulBasepointVartime", bb(curve.NewEdwardsPoint().TripleScalarMulBasepointVartime(s, P.Lib, s2, Q.Lib).IsSmallOrder()))
 		rc.out("EdwardsPoint.ExpandedTripleScalarMulBasepointVartime", bb(curve.NewEdwardsPoint().ExpandedTripleScalarMulBasepointVartime(s, P.Exp, s2, Q.Lib).IsSmallOrder()))
 		rc.out("EdwardsPoint.SetExpanded/Point", encE(curve.NewEdwardsPoint().SetExpanded(P.Exp)), encE(P.Exp.Point()))
+		// an expansion re-targeted to another point while a value copy of it is still in use: the same history in every
+		// configuration must give the same bytes
+		{
+			xp := curve.NewExpandedEdwardsPoint(P.Lib)
+			cp := *xp
+			xp.SetEdwardsPoint(Q.Lib)
+			rc.out("ExpandedEdwardsPoint.SetEdwardsPoint(re-target)/ExpandedDoubleScalarMulBasepointVartime", encE(curve.NewEdwardsPoint().ExpandedDoubleScalarMulBasepointVartime(s, xp, s2)), encE(curve.NewEdwardsPoint().ExpandedDoubleScalarMulBasepointVartime(s, &cp, s2)))
+			rc.out("ExpandedEdwardsPoint.SetEdwardsPoint(re-target)/ExpandedMultiscalarMulVartime", encE(curve.NewEdwardsPoint().ExpandedMultiscalarMulVartime([]*scalar.Scalar{s, s2}, []*curve.ExpandedEdwardsPoint{xp, &cp}, nil, nil)))
+			rc.out("ExpandedEdwardsPoint.SetEdwardsPoint(re-target)/Point", encE(xp.Point()), encE(cp.Point()))
+		}
 		// receivers that alias an operand, and the exported constant objects as operands
 		acc := curve.NewEdwardsPoint().Set(P.Lib)
 		rc.out("EdwardsPoint.MultiscalarMul(aliased)", encE(acc.MultiscalarMul([]*scalar.Scalar{s, s2}, []*curve.EdwardsPoint{acc, Q.Lib})))
@@ -558,6 +568,9 @@ func workX25519(rc *recorder, rng *rand.Rand, scale int) {
 	}
 	for i := 0; i < cnt(100, scale); i++ {
 		us = append(us, mon.Bytes(rng, 32))
+	}
+	for i := 0; i < cnt(60, scale); i++ {
+		us = append(us, gen.LadderFirstStepU(rng)) // word-boundary carries in the ladder's multiply-by-121666
 	}
 	for i, u := range us {
 		k := mon.Bytes(rng, 32)
